@@ -1,4 +1,5 @@
 import Pms.Props.C19
+import Pms.Props.C19Mod
 
 #print axioms Pms.AuxIo.C19_header_roundtrip
 #print axioms Pms.AuxIo.C19_header_fields
@@ -20,3 +21,4 @@ import Pms.Props.C19
 #print axioms Pms.AuxIo.C19_log_sections
 #print axioms Pms.AuxIo.C19_log_count
 #print axioms Pms.AuxIo.C19_log_incomplete
+#print axioms Pms.ModShape.C19_module_shape
